@@ -77,3 +77,16 @@ Example C15_closed_session_reports_102 :
   snd (step current_cfg corr_table (init corr_table) (EReturn (root "statConnClosed")))
   = Some (mkStatus 102 (str "Connection Closed") (Some [])).
 Proof. vm_compute. reflexivity. Qed.
+
+(* The site check is not vacuous: the shapes of the defects found, and of the hand mutations
+   tried, are rejected. *)
+Example C15_site_check_rejects :
+  let bad := [ ("plugin/proxy/proxy.go", "proxy.push", "SetCode", "stat", "callresult");
+               ("plugin/binder/binder.go", "Param.fixStatus", "SetMsg", "stat", "param");
+               ("context.go", "handlerCtx.bindCall", "SetCause", "statNotFound", "sentinel");
+               ("socket/message.go", "message.Reset", "Clear", "m.status", "field");
+               ("proto/jsonproto/jsonproto.go", "jsonproto.Pack", "SetMsg", "m.Status(true)", "msgstatus");
+               ("x.go", "f", "SetCode", "x", "unresolved") ]%string in
+  forallb (fun s => negb (site_ok true s)) bad = true
+  /\ site_ok false ("socket/protocol.go", "rawProto.readHeader", "DecodeQuery", "m.Status(true)", "msgstatus")%string = false.
+Proof. vm_compute. split; reflexivity. Qed.
